@@ -5,7 +5,7 @@
 # check (quick) against /repo with the patch applied and record everything in /verif/seeded/<ID>/<name>/meta.json.
 OUT="$1"
 PREFIX="${2:-}"      # e.g. r2- for a second round
-BASE="19 failed, 452 passed, 14 xfailed"
+BASE="19 failed, 452 passed, 13 xfailed, 1 xpassed"
 WT=$(mktemp -d /tmp/harvest-wt.XXXXXX)
 git -C /repo worktree add -q --detach "$WT" HEAD || exit 2
 trap 'git -C /repo worktree remove --force "$WT" >/dev/null 2>&1' EXIT
